@@ -128,6 +128,28 @@ def check_scalar_wrapper(ctx: Ctx, rule="WRAP"):
         """list of the converted arguments, possibly with one added axis: only number_array / [None] applied per element"""
         if isinstance(e, ast.Name) and e.id == va:
             return True
+        if depth < 4 and ((isinstance(e, ast.List) and not e.elts) or (isinstance(e, ast.Call) and isinstance(e.func, ast.Name) and e.func.id == "__modified_in_place__")):
+            # the path value of a list that a loop over the arguments fills: the loop is the comprehension
+            from ..astutil import loop_as_comprehension
+
+            accs = [s_.targets[0].id for s_ in fv.statements() if isinstance(s_, ast.Assign) and len(s_.targets) == 1 and isinstance(s_.targets[0], ast.Name)
+                    and isinstance(s_.value, ast.List) and not s_.value.elts]
+            comps_ = [c_ for a_ in accs for lp_ in fv.statements() if isinstance(lp_, ast.For) for c_ in [loop_as_comprehension(lp_, a_)] if c_ is not None]
+            if len(comps_) == 1:
+                return arg_list_ok(comps_[0], depth + 1)
+            return None
+        if isinstance(e, ast.Name) and depth < 4:
+            # a list filled by a loop over the arguments (`arrays = []; for a in args: arrays.append(number_array(a))`) is the comprehension
+            from ..astutil import loop_as_comprehension
+
+            inits = [s_ for s_ in fv.statements() if isinstance(s_, ast.Assign) and len(s_.targets) == 1 and isinstance(s_.targets[0], ast.Name) and s_.targets[0].id == e.id]
+            if len(inits) == 1 and isinstance(inits[0].value, ast.List) and not inits[0].value.elts:
+                comps_ = [loop_as_comprehension(lp_, e.id) for lp_ in fv.statements() if isinstance(lp_, ast.For)]
+                comps_ = [c_ for c_ in comps_ if c_ is not None]
+                if len(comps_) == 1:
+                    return arg_list_ok(comps_[0], depth + 1)
+            elif len(inits) == 1 and isinstance(inits[0].value, (ast.ListComp, ast.GeneratorExp)):
+                return arg_list_ok(inits[0].value, depth + 1)
         if isinstance(e, (ast.ListComp, ast.GeneratorExp)) and len(e.generators) == 1 and not e.generators[0].ifs and isinstance(e.generators[0].target, ast.Name):
             g = e.generators[0]
             v = g.target.id
